@@ -3,9 +3,9 @@ package otlptracehttp
 // C13 (unit wire-otlptracehttp) — what the exporter puts on the wire; see internal/verifc13w.
 
 import (
-	"sort"
 	"context"
 	"fmt"
+	"sort"
 	"testing"
 	"time"
 
@@ -37,11 +37,11 @@ func c13wBatch(svc string, n int) []tracesdk.ReadOnlySpan {
 	var stubs tracetest.SpanStubs
 	for i := 0; i < n; i++ {
 		stubs = append(stubs, tracetest.SpanStub{
-			Name: fmt.Sprintf("%s-span-%d", svc, i),
+			Name:        fmt.Sprintf("%s-span-%d", svc, i),
 			SpanContext: trace.NewSpanContext(trace.SpanContextConfig{TraceID: trace.TraceID{1, byte(len(svc)), byte(i >> 8), byte(i)}, SpanID: trace.SpanID{2, byte(i >> 8), byte(i), 1}, TraceFlags: trace.FlagsSampled}),
 			StartTime:   t0, EndTime: t0.Add(time.Duration(i+1) * time.Millisecond),
-			Attributes:  []attribute.KeyValue{attribute.String("owner", svc), attribute.Int("i", i)},
-			Resource:    res, InstrumentationScope: instrumentation.Scope{Name: "scope-of-" + svc},
+			Attributes: []attribute.KeyValue{attribute.String("owner", svc), attribute.Int("i", i)},
+			Resource:   res, InstrumentationScope: instrumentation.Scope{Name: "scope-of-" + svc},
 		})
 	}
 	return stubs.Snapshots()
@@ -60,8 +60,8 @@ func c13wMixed() []tracesdk.ReadOnlySpan {
 					Name:        fmt.Sprintf("%s-%s-%d", svc, sc, k),
 					SpanContext: trace.NewSpanContext(trace.SpanContextConfig{TraceID: trace.TraceID{7, byte(i)}, SpanID: trace.SpanID{8, byte(i)}, TraceFlags: trace.FlagsSampled}),
 					StartTime:   t0, EndTime: t0.Add(time.Duration(i) * time.Millisecond),
-					Attributes:  []attribute.KeyValue{attribute.String("owner", svc+"/"+sc)},
-					Resource:    resource.NewSchemaless(attribute.String("service.name", svc)), InstrumentationScope: instrumentation.Scope{Name: sc},
+					Attributes: []attribute.KeyValue{attribute.String("owner", svc+"/"+sc)},
+					Resource:   resource.NewSchemaless(attribute.String("service.name", svc)), InstrumentationScope: instrumentation.Scope{Name: sc},
 				})
 			}
 		}
@@ -71,7 +71,10 @@ func c13wMixed() []tracesdk.ReadOnlySpan {
 
 // c13wSort puts the groups of a request into one order (the transform groups through a map).
 func c13wSort(r *coltracepb.ExportTraceServiceRequest) {
-	key := func(m proto.Message) string { b, _ := proto.MarshalOptions{Deterministic: true}.Marshal(m); return string(b) }
+	key := func(m proto.Message) string {
+		b, _ := proto.MarshalOptions{Deterministic: true}.Marshal(m)
+		return string(b)
+	}
 	for _, rs := range r.ResourceSpans {
 		sort.Slice(rs.ScopeSpans, func(a, b int) bool { return key(rs.ScopeSpans[a].Scope) < key(rs.ScopeSpans[b].Scope) })
 	}
